@@ -184,3 +184,16 @@ Print Assumptions lha_main_returns.
 Print Assumptions cli_run_returns.
 Print Assumptions cli_run_returns_plain.
 Print Assumptions header_takes_22_bytes.
+(* ---- the number of members (P_MembersAll.v): at least two bytes of the stream per member
+   for any stream contents; 22 bytes per member when the stream consists of bytes, so an
+   archive of n bytes has at most n / 22 members ---- *)
+From Lhasa Require P_MembersAll.
+Theorem stream_headers_count : ltac:(let t := type of P_MembersAll.stream_headers_count in exact t).
+Proof. exact P_MembersAll.stream_headers_count. Qed.
+Theorem stream_headers_count_bytes : ltac:(let t := type of P_MembersAll.stream_headers_count_bytes in exact t).
+Proof. exact P_MembersAll.stream_headers_count_bytes. Qed.
+Theorem stream_headers_count_src : ltac:(let t := type of P_MembersAll.stream_headers_count_src in exact t).
+Proof. exact P_MembersAll.stream_headers_count_src. Qed.
+Print Assumptions stream_headers_count.
+Print Assumptions stream_headers_count_bytes.
+Print Assumptions stream_headers_count_src.
